@@ -52,7 +52,7 @@ func loadSeeds() []seed {
 func seedCases(swapToo bool) []*Case {
 	var out []*Case
 	for _, s := range loadSeeds() {
-		args := append([]string{"-q"}, s.Opts...)
+		args := append([]string(nil), s.Opts...)
 		args = append(args, "device", "code/router")
 		fam := "seed_" + strings.ToLower(strings.ReplaceAll(s.Model, "-", ""))
 		extra := 0
@@ -111,7 +111,7 @@ func genLinuxRouteTies(r *RNG, n int) *Case {
 	}
 	return &Case{Family: "linux_route_ties", Pred: "unstable_sort_with_tied_keys_linux_routes",
 		Files: map[string]string{"dev": mk(r.Fork(), n), "spoc": mk(r.Fork(), n), "spoc.info": `{"model":"Linux"}`},
-		Args:  []string{"-q", "dev", "spoc"}, Ties: n}
+		Args:  []string{"dev", "spoc"}, Ties: n}
 }
 
 // ASA / IOS: many routes with the same mask; the same route twice with different metric (the metric
@@ -148,7 +148,7 @@ func genCiscoRouteTies(r *RNG, n int) *Case {
 	}
 	return &Case{Family: "cisco_route_ties", Pred: "unstable_sort_with_tied_keys_cisco_routes",
 		Files: map[string]string{"dev": mk(r.Fork()), "spoc": mk(r.Fork()), "spoc.info": `{"model":"` + model + `"}`},
-		Args:  []string{"-q", "dev", "spoc"}, Ties: n}
+		Args:  []string{"dev", "spoc"}, Ties: n}
 }
 
 // NSX: n rules that agree in every sort key but their groups; many identical groups.
@@ -183,7 +183,7 @@ func genNSXRuleTies(r *RNG, n int) *Case {
 	s, _ := json.MarshalIndent(mkSide(r.Fork(), sIDs, n), "", " ")
 	return &Case{Family: "nsx_rule_ties", Pred: "unstable_sort_with_tied_keys_nsx_rules",
 		Files: map[string]string{"dev": string(d), "spoc": string(s), "spoc.info": `{"model":"NSX"}`},
-		Args:  []string{"-q", "dev", "spoc"}, Ties: n}
+		Args:  []string{"dev", "spoc"}, Ties: n}
 }
 
 // ASA: object-groups with more than 12 members, some of them twice (sort.Slice by parsed in sortGroups).
@@ -218,7 +218,7 @@ func genGroupDupMembers(r *RNG, n int) *Case {
 	spoc.WriteString("access-group inside in interface inside\n")
 	return &Case{Family: "asa_group_dup_members", Pred: "unstable_sort_with_tied_keys_group_members",
 		Files: map[string]string{"dev": dev.String(), "spoc": spoc.String(), "spoc.info": asaInfo},
-		Args:  []string{"-q", "dev", "spoc"}, Ties: n}
+		Args:  []string{"dev", "spoc"}, Ties: n}
 }
 
 // ---------------------------------------------------------------- merges of raw and IPv6 parts
@@ -257,7 +257,7 @@ func genASAMerge(r *RNG, k int) *Case {
 	}
 	return &Case{Family: "asa_merge", Pred: "merge_of_raw_and_ipv6_parts_asa",
 		Files: map[string]string{"dev": dev.String(), "spoc": v4.String(), "ipv6/spoc": v6.String(), "spoc.raw": raw.String(), "spoc.info": asaInfo},
-		Args:  []string{"-q", "dev", "spoc"}, Ties: k}
+		Args:  []string{"dev", "spoc"}, Ties: k}
 }
 
 // Linux: iptables in IPv4 file, raw file with further tables, new chains and prepended / appended rules.
@@ -318,7 +318,7 @@ func genNSXMerge(r *RNG, k int) *Case {
 	raw := cfg([]nsxGrp{grp("Netspoc-raw"+g.name("g"), "10.7.7.7")}, []nsxRule{rule("raw1", "10.7.7.1", "10.7.7.2", "IPV4", 10)})
 	return &Case{Family: "nsx_merge", Pred: "merge_of_raw_and_ipv6_parts_nsx",
 		Files: map[string]string{"dev": cfg(gd, rd), "spoc": cfg(g4, r4), "ipv6/spoc": cfg(g6, r6), "spoc.raw": raw, "spoc.info": `{"model":"NSX"}`},
-		Args:  []string{"-q", "dev", "spoc"}, Ties: k}
+		Args:  []string{"dev", "spoc"}, Ties: k}
 }
 
 // PAN-OS: IPv4 and IPv6 file (same vsys) and a raw file with further rules.
@@ -357,7 +357,7 @@ func genPanosMerge(r *RNG, k int) *Case {
 	raw := side(rule("raw1", "IP_10.1.1.10", "NET_10.1.2.0_24"), "", addr4)
 	return &Case{Family: "panos_merge", Pred: "merge_of_raw_and_ipv6_parts_panos",
 		Files: map[string]string{"dev": side(rd, gd, addr4), "spoc": side(r4, g4, addr4), "ipv6/spoc": side(r6, g6, addr6), "spoc.raw": raw, "spoc.info": `{"model":"PAN-OS"}`},
-		Args:  []string{"-q", "dev", "spoc"}, Ties: k}
+		Args:  []string{"dev", "spoc"}, Ties: k}
 }
 
 // ---------------------------------------------------------------- F-C16i, F-C16j
@@ -385,7 +385,7 @@ func genTooManyTransforms(r *RNG, k int) *Case {
 	}
 	return &Case{Family: "too_many_transforms", Pred: "several_crypto_maps_with_too_many_transform_sets",
 		Files: map[string]string{"dev": dev.String(), "spoc": "interface Ethernet0/1\n nameif outside\n", "spoc.info": asaInfo},
-		Args:  []string{"-q", "dev", "spoc"}, Ties: k, Check: "stderr-prefix", Aux: map[string]string{"prefix": "ERROR>>> "},
+		Args:  []string{"dev", "spoc"}, Ties: k, Check: "stderr-prefix", Aux: map[string]string{"prefix": "ERROR>>> "},
 		Model: []string{"first\t" + strings.Join(entries, "|")}}
 }
 
@@ -412,7 +412,7 @@ func genIncompleteACL(r *RNG, k int) *Case {
 	}
 	return &Case{Family: "incomplete_acl", Pred: "several_acls_with_incomplete_line",
 		Files: map[string]string{"dev": dev.String(), "spoc": "interface Ethernet0/1\n nameif outside\n", "spoc.info": asaInfo},
-		Args:  []string{"-q", "dev", "spoc"}, Ties: k, Check: "stderr-prefix", Aux: map[string]string{"prefix": "ERROR>>> "},
+		Args:  []string{"dev", "spoc"}, Ties: k, Check: "stderr-prefix", Aux: map[string]string{"prefix": "ERROR>>> "},
 		Model: []string{"first\t" + strings.Join(entries, "|")}}
 }
 
@@ -474,7 +474,7 @@ func genCrossKindNames(r *RNG, k int) *Case {
 	_ = crypto
 	return &Case{Family: "cross_kind_names", Pred: "same_name_in_several_command_kinds_with_different_free_drc_index",
 		Files: map[string]string{"dev": dev.String(), "spoc": spoc.String(), "spoc.info": asaInfo},
-		Args:  []string{"-q", "dev", "spoc"}, Ties: 2 * min(k, 2), Check: "xkind", Aux: map[string]string{"asks": strings.Join(asks, "|")}}
+		Args:  []string{"dev", "spoc"}, Ties: 2 * min(k, 2), Check: "xkind", Aux: map[string]string{"asks": strings.Join(asks, "|")}}
 }
 
 func wideCorpus() []*Case {
@@ -489,7 +489,7 @@ func wideCorpus() []*Case {
 			entries = append(entries, m+";Too many names (max. 11) in: "+line)
 		}
 		l = append(l, &Case{Family: "too_many_transforms", Pred: "several_crypto_maps_with_too_many_transform_sets", Note: "F-C16i",
-			Files: map[string]string{"dev": dev, "spoc": base, "spoc.info": asaInfo}, Args: []string{"-q", "dev", "spoc"}, Ties: 5,
+			Files: map[string]string{"dev": dev, "spoc": base, "spoc.info": asaInfo}, Args: []string{"dev", "spoc"}, Ties: 5,
 			Check: "stderr-prefix", Aux: map[string]string{"prefix": "ERROR>>> "}, Model: []string{"first\t" + strings.Join(entries, "|")}})
 	}
 	{ // F-C16j
@@ -501,7 +501,7 @@ func wideCorpus() []*Case {
 			entries = append(entries, a+";Incomplete command: "+line)
 		}
 		l = append(l, &Case{Family: "incomplete_acl", Pred: "several_acls_with_incomplete_line", Note: "F-C16j",
-			Files: map[string]string{"dev": dev, "spoc": base, "spoc.info": asaInfo}, Args: []string{"-q", "dev", "spoc"}, Ties: 5,
+			Files: map[string]string{"dev": dev, "spoc": base, "spoc.info": asaInfo}, Args: []string{"dev", "spoc"}, Ties: 5,
 			Check: "stderr-prefix", Aux: map[string]string{"prefix": "ERROR>>> "}, Model: []string{"first\t" + strings.Join(entries, "|")}})
 	}
 	{ // input of the seeded change C16-R3M2
@@ -510,7 +510,7 @@ func wideCorpus() []*Case {
 				"dev":       "access-list g1-DRC-0 extended permit ip any4 any4\naccess-group g1-DRC-0 in interface inside\n",
 				"spoc":      "object-group network g1\n network-object 10.0.1.0 255.255.255.0\n network-object 10.0.2.0 255.255.255.0\naccess-list g1 extended permit ip object-group g1 any4\naccess-group g1 in interface inside\n",
 				"spoc.info": asaInfo},
-			Args: []string{"-q", "dev", "spoc"}, Ties: 2, Check: "xkind", Aux: map[string]string{"asks": "access-list;g1;0|object-group;g1;"}})
+			Args: []string{"dev", "spoc"}, Ties: 2, Check: "xkind", Aux: map[string]string{"asks": "access-list;g1;0|object-group;g1;"}})
 	}
 	return l
 }
@@ -528,16 +528,7 @@ func wideCases(ctx *Ctx, r *RNG) []*Case {
 			genTooManyTransforms(r.Fork(), k), genIncompleteACL(r.Fork(), k),
 			genCrossKindNames(r.Fork(), k), genCrossKindNames(r.Fork(), k))
 	}
+	// all seeds in both tiers (both parities), without -q: info lines are compared too
 	seeds := seedCases(ctx.Thorough())
-	if !ctx.Thorough() {
-		// quick: every second seed, the half chosen by the seed of the run; all merges of raw / ipv6 parts
-		var keep []*Case
-		for i, c := range seeds {
-			if strings.HasSuffix(c.Family, "_merge") || uint64(i)%2 == ctx.Seed%2 {
-				keep = append(keep, c)
-			}
-		}
-		seeds = keep
-	}
 	return append(cases, seeds...)
 }
